@@ -1873,6 +1873,16 @@ class StateEngine(object):
             the event, state and id to be wrapped in its closure, to be used when
             the service integrated to the Task *actually* returns its result.
             """
+            """
+            This delegate runs from a timer after the event was accepted, so
+            the Parallel or Map state the event belongs to may have failed in
+            the meantime; if so this branch must make no further progress.
+            """
+            if self.branch_has_terminated(
+                state_type, context, id, ASL.get("TimeoutSeconds", self.execution_ttl)
+            ):
+                return
+
             def on_response(result):
                 """
                 The use of the "errorType" field to report an error invoking a
@@ -2636,6 +2646,16 @@ class StateEngine(object):
             The Parallel state passes its input (potentially as filtered by the
             “InputPath” field) as the input to each branch’s “StartAt” state.
             """
+            """
+            This delegate runs from a timer after the event was accepted, so
+            the Parallel or Map state the event belongs to may have failed in
+            the meantime; if so this branch must make no further progress.
+            """
+            if self.branch_has_terminated(
+                state_type, context, id, ASL.get("TimeoutSeconds", self.execution_ttl)
+            ):
+                return
+
             try:
                 input = apply_path(data, context, state.get("InputPath", "$"))
 
@@ -2793,6 +2813,16 @@ class StateEngine(object):
 
             The “InputPath” field operates as usual, selecting part of the raw input .
             """
+            """
+            This delegate runs from a timer after the event was accepted, so
+            the Parallel or Map state the event belongs to may have failed in
+            the meantime; if so this branch must make no further progress.
+            """
+            if self.branch_has_terminated(
+                state_type, context, id, ASL.get("TimeoutSeconds", self.execution_ttl)
+            ):
+                return
+
             try:
                 input = apply_path(data, context, state.get("InputPath", "$"))
 
